@@ -14,6 +14,23 @@ oracle: the property statement evaluated with exact integer arithmetic
 
 Inputs on the dyadic grid (k*2^-10) make the double arithmetic that decides
 membership exact, so impl, model and oracle must agree exactly, ties included.
+
+Round 3 additions:
+ * boundary coincidence with the REAL binning grid (its origin is the padded
+   minimum xmin - 0.01*L, so dyadic lattice points are never on its faces):
+   stream `padded-face` solves extents, in the double operations of
+   _compute_bounds / find_cell_id, such that the particle with the largest
+   coordinate, the padded upper limit or inner particles lie exactly on cell
+   faces; stream `decimal-lattice` = round-number SPH lattices ~100 cells long.
+   NNPS._compute_bounds / _get_number_of_cells are modelled
+   (Model/NnpsBounds.lean) and run at Float: xmin / xmax / ncells_per_dim of
+   every real object must agree bit for bit (driver `bounds`).
+ * ownership of the output array: on every state an API-usage history mixes
+   cached, un-cached and prealloc calls and cache resets on the live object
+   and on a second object of another class, with output arrays shared between
+   the calls; every result is judged by the oracle right after its call and
+   every used cache entry is read again at the end; tied to the ownership
+   model Model/NnpsAlias.lean (driver `alias`).
 """
 import hashlib
 import json
@@ -57,6 +74,15 @@ CLASSES = ['LinkedListNNPS', 'BoxSortNNPS', 'DictBoxSortNNPS',
 RATIO_LIMIT = 40.0            # extent / cell_size per axis (memory of key tables)
 BAND = 2.0 ** -40
 CHILD_TIMEOUT = 90           # seconds for one (scenario, class) run
+LONG_RATIO_LIMIT = 260.0      # `long` scenarios (1-D / thin 2-D round-number lattices): one long axis
+LONG_CELLS_LIMIT = 6000.0     # ... and this many cells in all
+PAD = 0.01                    # the fraction NNPS._compute_bounds pads its limits with.  Used by the
+#                               GENERATOR only (it aims particles at the faces of the grid the code will
+#                               build); whether they got there is measured on the bounds of the real
+#                               object (`bounds:*` counts), the oracle does not depend on it
+# classes a second NNPS object of an API-usage history may have
+ALIAS_OTHERS = ['LinkedListNNPS', 'SpatialHashNNPS', 'BoxSortNNPS', 'CellIndexingNNPS',
+                'ZOrderNNPS', 'OctreeNNPS', 'DictBoxSortNNPS']
 
 
 # --------------------------------------------------------------------------
@@ -277,6 +303,244 @@ def gen_nondyadic(rng, sid):
     return scn
 
 
+def _ulps(x, k):
+    for _ in range(abs(k)):
+        x = math.nextafter(x, math.inf if k > 0 else -math.inf)
+    return x
+
+
+def solve_top(xmin, n, cs):
+    """a double xmax > xmin such that, measured from the lower limit the code computes for
+    (xmin, xmax), the particle at xmax is EXACTLY n cell sizes away -- in the double operations of
+    _compute_bounds and find_cell_id"""
+    guess = xmin + n * cs / (1 + PAD)
+    for k in sorted(range(-24, 25), key=abs):
+        c = _ulps(guess, k)
+        lo = xmin - (c - xmin) * PAD
+        if c > xmin and (c - lo) / cs == float(n):
+            return c
+    return None
+
+
+def solve_hi(xmin, n, cs):
+    """xmax such that the padded extent is exactly n cells: cell_size1*(xmax' - xmin') == n"""
+    guess = xmin + n * cs / (1 + 2 * PAD)
+    for k in sorted(range(-24, 25), key=abs):
+        c = _ulps(guess, k)
+        lx = c - xmin
+        if c > xmin and (1.0 / cs) * ((c + lx * PAD) - (xmin - lx * PAD)) == float(n):
+            return c
+    return None
+
+
+def on_face(lo, j, cs):
+    """a double x with (x - lo)/cs == j exactly"""
+    guess = lo + j * cs
+    for k in sorted(range(-6, 7), key=abs):
+        c = _ulps(guess, k)
+        if (c - lo) / cs == float(j):
+            return c
+    return None
+
+
+def _face_points(rng, dim, narr, h0, cs, npts):
+    """one configuration whose extreme particles sit on cell faces of the PADDED grid"""
+    axes = []
+    for k in range(3):
+        if k >= dim:
+            axes.append(None)
+            continue
+        n = rng.choice([1, 2, 3, 4, 5, 7, 10] if dim < 3 else [1, 2, 3, 4, 5])
+        xmin = rng.choice([0.0, 0.0, 1.0, -0.37, rng.uniform(-3, 3), 1234.5])
+        mode = rng.choice(['top', 'top', 'top', 'hi', 'free'])
+        xmax = None
+        if mode == 'top':
+            xmax = solve_top(xmin, n, cs)
+        elif mode == 'hi':
+            xmax = solve_hi(xmin, n, cs)
+        if xmax is None:
+            mode = 'free'
+            xmax = xmin + cs * rng.uniform(0.3, n)
+        lo = xmin - (xmax - xmin) * PAD
+        axes.append({'n': n, 'xmin': xmin, 'xmax': xmax, 'lo': lo, 'mode': mode})
+
+    def coord(ax):
+        if ax is None:
+            return 0.0
+        r = rng.random()
+        if r < 0.22:
+            return ax['xmax']                       # the last layer
+        if r < 0.30:
+            return ax['xmin']
+        if r < 0.45:                                # within one cell of the last layer
+            return max(ax['xmin'], ax['xmax'] - cs * rng.uniform(0, 1.0))
+        if r < 0.65:                                # exactly on an inner face / just below it
+            j = rng.randrange(1, ax['n'] + 1)
+            c = on_face(ax['lo'], j, cs)
+            if c is not None and ax['xmin'] <= c <= ax['xmax']:
+                return c if rng.random() < 0.6 else max(ax['xmin'], _ulps(c, -1))
+        return rng.uniform(ax['xmin'], ax['xmax'])
+    pts = []
+    # the extremes are attained: by one corner particle or by different particles
+    if rng.random() < 0.5:
+        pts.append([ax['xmin'] if ax else 0.0 for ax in axes])
+        pts.append([ax['xmax'] if ax else 0.0 for ax in axes])
+    else:
+        for k in range(dim):
+            for e in ('xmin', 'xmax'):
+                q = [coord(ax) for ax in axes]
+                q[k] = axes[k][e]
+                pts.append(q)
+    while len(pts) < npts:
+        pts.append([coord(ax) for ax in axes])
+    rng.shuffle(pts)
+    return pts, [None if ax is None else ax['mode'] for ax in axes]
+
+
+def gen_face(rng, sid):
+    """non-dyadic stream, boundary coincidence with the REAL grid: the origin of the binning grid
+    is the padded minimum, so points on multiples of the cell size are never on its faces; here the
+    extents are solved (in the double operations the code uses) such that the particle with the
+    largest coordinate / the padded upper limit / inner particles lie exactly on cell faces"""
+    dim = rng.choice([1, 2, 2, 3])
+    narr = rng.choice([1, 1, 2])
+    h0 = rng.choice([0.01, 0.0125, 0.1, 0.05, 0.3, rng.uniform(0.02, 0.2)])
+    cs = 2.0 * h0
+    sizes = [rng.choice([4, 9, 20, 35]) for _ in range(narr)]
+    nstates = rng.choice([1, 2, 2])
+    confs = []
+    for _ in range(nstates):
+        pts, modes = _face_points(rng, dim, narr, h0, cs, sum(sizes))
+        confs.append(pts)
+    hs = [h0 if (k == 0 or rng.random() < 0.7) else h0 * rng.uniform(0.5, 1.0)
+          for k in range(sum(sizes))]
+
+    def split(pts):
+        out, k = [], 0
+        for n in sizes:
+            out.append(pts[k:k + n])
+            k += n
+        return out
+    arrays = []
+    k = 0
+    for a, ps in enumerate(split(confs[0])):
+        arr = _empty_arr()
+        for q in ps:
+            arr['x'].append(q[0]); arr['y'].append(q[1]); arr['z'].append(q[2])   # noqa: E702
+            arr['h'].append(hs[k])
+            k += 1
+        arrays.append(arr)
+    steps = []
+    for pts in confs[1:]:
+        steps.append([{'op': 'setpos', 'a': a, 'x': [q[0] for q in ps], 'y': [q[1] for q in ps],
+                       'z': [q[2] for q in ps]} for a, ps in enumerate(split(pts))])
+    scn = {'sid': sid, 'gen': 'padded-face', 'dim': dim, 'rs': [2, 1], 'unit': 0,
+           'arrays': arrays, 'steps': steps, 'threads': rng.choice([1, 1, 3])}
+    scn['cfgs'] = {c: _pick_knobs(rng, c, None) for c in CLASSES}
+    for c in CLASSES:
+        scn['cfgs'][c]['fixed_h'] = False
+    scn['gid_mode'] = rng.choice(['default', 'default', 'unique', 'shared'])
+    scn['ctx'] = rng.choice(['explicit', 'implicit', 'implicit'])
+    return scn
+
+
+def gen_decimal(rng, sid, big=False):
+    """non-dyadic stream: the round-number lattices SPH set-ups are made of (spacing 0.01, 0.02,
+    0.025 ..., h = hdx*dx, an extent that is a round number of cells, possibly ~100 cells long in one
+    direction); pairs exactly at the cut-off fall into the rounding band the statement allows"""
+    dim = rng.choice([1, 2])
+    dx = rng.choice([0.01, 0.01, 0.02, 0.05, 0.1, 0.025, 0.004])
+    hdx = rng.choice([1.0, 1.0, 1.0, 1.2, 1.3, 1.5, 2.0])
+    h = hdx * dx
+    cs = 2.0 * h
+    ncell = rng.choice([100, 100, 100, 50, 25, 10, 200 if big else 20])
+    nx = int(round(ncell * cs / dx)) + 1
+    x0 = rng.choice([0.0, 0.0, 0.0, -1.0, 0.5])
+    cap = 1500 if big else 640
+    rows = 1
+    if dim == 2:
+        rows = max(2, min(rng.choice([2, 3, 3, 5]), cap // nx))
+    while nx * rows > cap and nx > 11:
+        nx = (nx - 1) // 2 + 1
+    arr = _empty_arr()
+    for j in range(rows):
+        for i in range(nx):
+            arr['x'].append(x0 + i * dx)
+            arr['y'].append(j * dx if dim == 2 else 0.0)
+            arr['z'].append(0.0)
+            arr['h'].append(h)
+    arrays = [arr]
+    if dim == 2 and rng.random() < 0.5:
+        # a column standing on the first half of the bed (second array half of the time)
+        col = _empty_arr()
+        crows = rng.choice([2, 4])
+        while crows > 0 and nx * rows + crows * ((nx + 1) // 2) > cap:
+            crows -= 1
+        for j in range(rows, rows + crows):
+            for i in range((nx + 1) // 2):
+                col['x'].append(x0 + i * dx); col['y'].append(j * dx)   # noqa: E702
+                col['z'].append(0.0); col['h'].append(h)                # noqa: E702
+        if rng.random() < 0.5:
+            arrays.append(col)
+        else:
+            for ax in ('x', 'y', 'z', 'h'):
+                arr[ax] += col[ax]
+    scn = {'sid': sid, 'gen': 'decimal-lattice', 'dim': dim, 'rs': [2, 1], 'unit': 0, 'long': True,
+           'arrays': arrays, 'steps': [], 'threads': rng.choice([1, 2])}
+    scn['cfgs'] = {c: _pick_knobs(rng, c, None) for c in CLASSES}
+    # one long axis: keep the key tables of the classes with one entry per Morton key small
+    k = scn['cfgs']['ExtendedZOrderNNPS']['knobs']
+    k['H'] = 1 if ncell > 100 else min(k['H'], 2)
+    k = scn['cfgs']['StratifiedSFCNNPS']['knobs']
+    k['num_levels'] = 1 if ncell > 100 else min(k['num_levels'], 2)
+    k = scn['cfgs']['ExtendedSpatialHashNNPS']['knobs']
+    k['H'] = min(k['H'], 2)
+    scn['gid_mode'] = rng.choice(['default', 'default', 'unique'])
+    scn['ctx'] = rng.choice(['explicit', 'implicit'])
+    return scn
+
+
+def gen_alias(scn):
+    """API-usage histories (one per state of the scenario), from their own stream: which calls of
+    the query API are made on which object with which output array.  Raw: pair / particle numbers
+    are taken modulo what exists in the state."""
+    rng = random.Random('alias|%s|%d' % (scn['sid'], len(scn['arrays'])))
+    out = []
+    for _ in range(len(scn['steps']) + 1):
+        nscr = rng.choice([1, 1, 2, 3])
+        spec = {'other': rng.choice(ALIAS_OTHERS), 'other_cache': rng.random() < 0.4,
+                'reserve': rng.choice([0, 0, 4096]), 'ops': []}
+        if spec['other'] == 'DictBoxSortNNPS':
+            spec['other_cache'] = False
+        ops = spec['ops']
+
+        def big():
+            return rng.randrange(1 << 20)
+
+        def direct(a):
+            if rng.random() < 0.5:
+                return {'k': 'n', 'o': 0, 'p': big(), 'i': big(), 'a': a, 'pre': rng.random() < 0.25}
+            return {'k': 'g', 'o': 1, 'p': big(), 'i': big(), 'a': a}
+        for _ in range(rng.choice([3, 6, 10])):
+            a = rng.randrange(nscr)
+            r = rng.random()
+            if r < 0.6:
+                # a cached entry, other queries with the same output array, the entry again
+                p, i = big(), big()
+                ops.append({'k': 'g', 'o': 0, 'p': p, 'i': i, 'a': a})
+                for _ in range(rng.choice([1, 1, 2, 3])):
+                    ops.append(direct(a if rng.random() < 0.8 else rng.randrange(nscr)))
+                ops.append({'k': 'g', 'o': 0, 'p': p, 'i': i,
+                            'a': a if rng.random() < 0.7 else rng.randrange(nscr)})
+            elif r < 0.9:
+                ops.append(rng.choice([direct(a), {'k': 'g', 'o': rng.choice([0, 1]), 'p': big(),
+                                                   'i': big(), 'a': a}]))
+            else:
+                ops.append({'k': 'r', 'o': rng.choice([0, 0, 1])})
+        out.append(spec)
+    return out
+
+
 # --------------------------------------------------------------------------
 # implementation side (runs in forked workers)
 
@@ -331,6 +595,14 @@ def apply_ops(scn, pas, ops):
                              z=np.array([_val(scn, v) for v in op['z']], dtype=float),
                              h=np.array([_val(scn, v) for v in op['h']], dtype=float))
             continue
+        if op['op'] == 'setpos':
+            if n != len(op['x']):
+                raise RuntimeError('setpos: array size changed')
+            if n:
+                pa.x[:] = np.array([_val(scn, v) for v in op['x']], dtype=float)
+                pa.y[:] = np.array([_val(scn, v) for v in op['y']], dtype=float)
+                pa.z[:] = np.array([_val(scn, v) for v in op['z']], dtype=float)
+            continue
         if n == 0:
             continue
         idx = sorted(set(i % n for i in op['idx']))
@@ -378,6 +650,7 @@ def state_unsafe(scn, st, phantom_origin=False):
     if scn['unit'] and cs / scn['unit'] < 1e-6:
         cs = scn['unit']
     ext = 0
+    cells = 1.0
     for ax in ('x', 'y', 'z'):
         vs = [v for a in st for v in a[ax]]
         # an empty array contributes 0 to the bounds (carray min/max of an
@@ -385,6 +658,9 @@ def state_unsafe(scn, st, phantom_origin=False):
         if phantom_origin and any(len(a['h']) == 0 for a in st):
             vs = vs + [0]
         ext = max(ext, max(vs) - min(vs))
+        cells *= (max(vs) - min(vs)) / cs + 2
+    if scn.get('long'):
+        return ext / cs > LONG_RATIO_LIMIT or cells > LONG_CELLS_LIMIT
     return ext / cs > RATIO_LIMIT
 
 
@@ -723,6 +999,111 @@ def _progress(st):
         PROGRESS.flush()
 
 
+def read_bounds(cname, nps):
+    """xmin / xmax of the real object (bit patterns) and, where the class has one, the box"""
+    out = {'lo': [H.fbits(float(v)) for v in nps.xmin.get_npy_array()],
+           'hi': [H.fbits(float(v)) for v in nps.xmax.get_npy_array()], 'nc': None}
+    if cname in ('LinkedListNNPS', 'BoxSortNNPS'):
+        out['nc'] = [int(v) for v in nps.ncells_per_dim.get_npy_array()]
+    return out
+
+
+def resolve_alias(spec, ns):
+    """raw API-usage history -> concrete calls for a state with ns[a] particles in array a.
+    The same for every class (the model is asked once per state): object 0 is taken to have its
+    cache on.  `prealloc=True` is only used on an output array that is not a view of a cache (the
+    flag promises a caller-owned, pre-allocated array).  At the end every entry of the caches of
+    object 0 that were used is read again with a fresh array."""
+    narr = len(ns)
+    pairs = [(d, s) for d in range(narr) for s in range(narr) if ns[d] > 0]
+    if not pairs:
+        return []
+    view, ops, touched = {}, [], []
+    for op in spec['ops']:
+        if op['k'] == 'r':
+            if op['o'] == 0 or spec['other_cache']:
+                ops.append(['r', op['o']])
+            continue
+        d, s = pairs[op['p'] % len(pairs)]
+        i, a = op['i'] % ns[d], op['a']
+        if op['k'] == 'g':
+            ops.append(['g', op['o'], s, d, i, a])
+            view[a] = op['o'] == 0 or bool(spec['other_cache'])
+            if op['o'] == 0 and (d, s) not in touched:
+                touched.append((d, s))
+        else:
+            pre = bool(op['pre']) and not view.get(a, False)
+            ops.append(['n', op['o'], s, d, i, a, int(pre)])
+            view[a] = False
+    for d, s in touched[:3]:
+        for i in range(min(ns[d], 64)):
+            ops.append(['g', 0, s, d, i, 9])
+    return ops
+
+
+def run_alias(scn, cname, nps, pas, spec, definite, band, step, res):
+    """one API-usage history on the live object `nps` (cache on, freshly reset) and a second
+    object of another class over the same arrays: every call's result, read right after the
+    call, is judged by the oracle.  -> {'ops', 'got'} for the tie with Model/NnpsAlias"""
+    ns = [pa.get_number_of_particles() for pa in pas]
+    ops = resolve_alias(spec, ns)
+    if not ops:
+        return None
+    live_cache = cname != 'DictBoxSortNNPS'
+    try:
+        ocfg = dict(scn['cfgs'][spec['other']], cache0=bool(spec['other_cache']))
+        other = construct(scn, spec['other'], ocfg, pas)
+    except Exception as e:      # noqa
+        return {'skipped': 'second object: %s: %s' % (type(e).__name__, e)}
+    if live_cache:
+        nps.set_use_cache(True)
+    objs = [nps, other]
+    scratch = {}
+    got = []
+    for k, op in enumerate(ops):
+        if op[0] == 'r':
+            if op[1] == 1 or live_cache:
+                objs[op[1]].set_use_cache(True)
+            got.append('-')
+            continue
+        o, s, d, i, a = op[1:6]
+        if a not in scratch:
+            scratch[a] = UIntArray()
+            if spec['reserve'] and a != 9:
+                scratch[a].reserve(int(spec['reserve']))
+        nb = scratch[a]
+        try:
+            if op[0] == 'g':
+                objs[o].get_nearest_particles(s, d, i, nb)
+                l = nb.get_npy_array().tolist()
+            else:
+                if op[6]:
+                    nb.reserve(ns[s] + 16)
+                objs[o].get_nearest_particles_no_cache(s, d, i, nb, bool(op[6]))
+                # (prealloc=True does not keep the numpy view's length in step)
+                l = [int(nb.get(t)) for t in range(int(nb.length))]
+        except Exception as e:      # noqa
+            l = ['raises-%s' % type(e).__name__]
+        w = definite[(d, s)][i]
+        core = sorted((j for j in l if j not in band[(d, s)][i]),
+                      key=lambda t: (isinstance(t, str), t))
+        got.append(','.join(str(j) for j in core) if core else '_')
+        if core != w:
+            what = 'cached' if (op[0] == 'g' and o == 0) else \
+                'direct' if op[0] == 'n' else 'second-object-%s' % spec['other']
+            key = 'query-history-' + what
+            ks = res.setdefault('fail_keys', {}).setdefault(str(step), [])
+            if key not in ks:
+                ks.append(key)
+            res['nfail_queries'] = res.get('nfail_queries', 0) + 1
+            if len([f for f in res['fails'] if f['key'] == key]) < 2:
+                res['fails'].append({
+                    'step': step, 'mode': 'api-history call %d of %r' % (k, ops[max(0, k - 4):k + 1]),
+                    'd': d, 's': s, 'i': i, 'key': key, 'got': core, 'want': w})
+    del other
+    return {'ops': ops, 'got': '|'.join(got)}
+
+
 def run_class(scn, cname, cfg, want_states=None):
     """run one class over the whole history.  Returns dict with per step/mode
     sha of canonical lists, failures vs the oracle, states."""
@@ -788,6 +1169,10 @@ def run_class(scn, cname, cfg, want_states=None):
         res['states'].append(st)
         res['oracle_text'].append(lists_text(narr, definite))
         res['cs'].append([float(nps.cell_size), float(nps.hmin)])
+        try:
+            res.setdefault('bd', []).append(read_bounds(cname, nps))
+        except Exception as e:      # noqa
+            res.setdefault('bd', []).append({'error': '%s: %s' % (type(e).__name__, e)})
         if cname in ('StratifiedHashNNPS', 'StratifiedSFCNNPS'):
             try:
                 res.setdefault('lv', []).append(dump_levels(scn, cname, cfg, nps, pas))
@@ -847,6 +1232,17 @@ def run_class(scn, cname, cfg, want_states=None):
                 res.setdefault('impl_text', {})['%d:%d' % (step, mi)] = txt[:4000]
         mode = modes[-1]
         res['steps'].append(shas)
+        # API-usage history on this state (shared output arrays, cached / un-cached calls mixed,
+        # a second object); the cache mode is put back afterwards
+        spec = (scn.get('alias') or [None] * (step + 1))[step] if not empty_far(scn, st) else None
+        if spec is not None:
+            _progress(st)
+            res.setdefault('alias', []).append(
+                run_alias(scn, cname, nps, pas, spec, definite, band, step, res))
+            if cname != 'DictBoxSortNNPS':
+                nps.set_use_cache(mode)
+        else:
+            res.setdefault('alias', []).append(None)
         if 'Octree' in cname and scn.get('dump_tree', True):
             try:
                 res.setdefault('trees', []).append(
@@ -1190,6 +1586,13 @@ def check_strat_levels(scns, results, R):
                                z['error'], 'strat-levels-dump')
                     continue
                 st = r['states'][k]
+                if not (math.isfinite(float.fromhex(z['cs'])) and math.isfinite(float.fromhex(z['hmin']))):
+                    # never a crash of the harness: an implementation that reports an
+                    # infinite / NaN cell size disagrees with the model's front end
+                    R.disagree({'scenario': scn, 'cls': c, 'step': k}, 'finite cell_size / hmin',
+                               'cell_size %s hmin %s' % (float.fromhex(z['cs']), float.fromhex(z['hmin'])),
+                               'strat-levels-nonfinite')
+                    continue
                 toks = ['lev kind=%s rs=%s cs=%s hmin=%s eps=%s L=%d' % (
                     kind, H.qstr(Fraction(*scn['rs'])), H.qstr(Fraction(float.fromhex(z['cs']))),
                     H.qstr(Fraction(float.fromhex(z['hmin']))), H.qstr(Fraction(eps)), z['L'])]
@@ -1213,6 +1616,177 @@ def check_strat_levels(scns, results, R):
             R.disagree({'scenario': scn, 'cls': c, 'cfg': scn['cfgs'][c], 'step': k, 'line': ln[:2000]},
                        'per-level counts %r' % (mcounts,), 'per-level counts %r' % (z['counts'],),
                        'strat-levels')
+
+
+def _fval(scn, v):
+    return (v / scn['unit']) if scn['unit'] else float(v)
+
+
+def check_bounds(scns, results, states, R):
+    """NNPS._compute_bounds / _get_number_of_cells of Model/NnpsBounds.lean run at Float (the
+    operations of the compiled code in the same order) on every state: xmin / xmax of every REAL
+    object must agree bit for bit, ncells_per_dim of LinkedList / BoxSort too; `valid` is the
+    conclusion of padded_bounds_valid evaluated in doubles on that state.  Also measures how many
+    states have particles exactly on faces of the real grid."""
+    lines, where = [], []
+    for scn in scns:
+        sid = scn['sid']
+        for k, st in enumerate(states.get(sid, [])):
+            cs = None
+            for c in CLASSES:
+                r = results.get((sid, c))
+                if r and len(r.get('cs', [])) > k and math.isfinite(r['cs'][k][0]) \
+                        and r['cs'][k][0] > 0:
+                    cs = r['cs'][k][0]
+                    break
+            if cs is None:
+                continue
+            toks = ['bounds big=%s pad=%s eps=%s half=%s cs=%s' % (
+                H.fbits(1e100), H.fbits(0.01), H.fbits(1e-12), H.fbits(0.5), H.fbits(cs))]
+            for a in st:
+                toks.append('A ' + ' '.join('%s=%s' % (ax, H.flist(_fval(scn, v) for v in a[ax]))
+                                            for ax in ('x', 'y', 'z')))
+            lines.append(' '.join(toks))
+            where.append((scn, k))
+    outs = run_model_parallel(lines)
+    for (scn, k), o, ln in zip(where, outs, lines):
+        if o == 'bad-op':
+            raise SystemExit('model driver rejected: ' + ln[:300])
+        kv = dict(t.split('=', 1) for t in o.split() if '=' in t)
+        R.count('bounds:states')
+        for f in ('face', 'top', 'hiface'):
+            if int(kv[f]) > 0:
+                R.count('bounds:states-with-%s' % {
+                    'face': 'a-particle-exactly-on-a-cell-face',
+                    'top': 'the-largest-coordinate-exactly-on-a-cell-face',
+                    'hiface': 'padded-extent-a-whole-number-of-cells'}[f])
+        if kv['valid'] != 'ok':
+            R.count('bounds:BAD-valid')
+            R.disagree({'scenario': scn, 'step': k, 'line': ln[:3000]},
+                       'every particle is binned into a valid cell of the LinkedList / BoxSort box '
+                       '(padded_bounds_valid evaluated in doubles)', o, 'bounds-valid-in-doubles')
+        lo, hi = kv['lo'].split(','), kv['hi'].split(',')
+        nc = [int(t) for t in kv['nc'].split(',')]
+        for c in CLASSES:
+            r = results.get((scn['sid'], c))
+            if not r or len(r.get('bd', [])) <= k:
+                continue
+            b = r['bd'][k]
+            R.count('bounds:compared')
+            if 'error' in b:
+                R.disagree({'scenario': scn, 'cls': c, 'step': k}, 'readable xmin / xmax',
+                           b['error'], 'bounds-dump')
+                continue
+            bad = []
+            if b['lo'] != lo or b['hi'] != hi:
+                bad.append('xmin/xmax model %s / %s impl %s / %s' % (
+                    [H.bits2f(t) for t in lo], [H.bits2f(t) for t in hi],
+                    [H.bits2f(t) for t in b['lo']], [H.bits2f(t) for t in b['hi']]))
+            if b['nc'] is not None:
+                R.count('bounds:ncells-compared')
+                if b['nc'] != nc:
+                    bad.append('ncells_per_dim model %r impl %r' % (nc, b['nc']))
+            if bad:
+                R.count('bounds:BAD')
+                R.disagree({'scenario': scn, 'cls': c, 'step': k, 'line': ln[:3000]}, o,
+                           '; '.join(bad), 'padded-bounds')
+
+
+def check_alias(scns, results, states, R):
+    """the API-usage histories against the ownership model of Model/NnpsAlias.lean (one model
+    line per state: the history is the same for every class)"""
+    lines, where = [], []
+    for scn in scns:
+        sid = scn['sid']
+        for k, st in enumerate(states.get(sid, [])):
+            recs = []
+            for c in CLASSES:
+                r = results.get((sid, c))
+                if r and len(r.get('alias', [])) > k and r['alias'][k] is not None:
+                    a = r['alias'][k]
+                    if 'skipped' in a:
+                        R.count('query-history:skipped')
+                        R.note('API history skipped (%s %s step %d): %s' % (sid, c, k, a['skipped']))
+                        continue
+                    recs.append((c, a))
+            if not recs:
+                continue
+            ops = recs[0][1]['ops']
+            for c, a in recs:
+                if a['ops'] != ops:
+                    raise SystemExit('API histories differ between classes (%s, %s)' % (sid, c))
+            toks = []
+            for op in ops:
+                if op[0] == 'r':
+                    toks.append('r:%d' % op[1])
+                elif op[0] == 'g' and (op[1] == 0 or scn['alias'][k]['other_cache']):
+                    toks.append('c:%d:%d:%d:%d:%d' % tuple(op[1:6]))
+                else:
+                    toks.append('n:%d:%d:%d:%d:%d:%d' % (tuple(op[1:6]) + (op[6] if op[0] == 'n' else 0,)))
+            lines.append(' '.join(['alias rs=%s' % H.qstr(Fraction(*scn['rs']))] +
+                                  ['A ' + _arr_tokens(scn, a) for a in st] + ['O'] + toks))
+            where.append((scn, k, st, ops, recs))
+    outs = run_model_parallel(lines)
+    for (scn, k, st, ops, recs), o, ln in zip(where, outs, lines):
+        if o == 'bad-op' or not o.startswith('safe='):
+            raise SystemExit('model driver rejected: ' + ln[:300])
+        head, _, body = o.partition(' R ')
+        if head != 'safe=ok':
+            raise SystemExit('harness generated an unsafe API history: ' + ln[:300])
+        mres = body.split('|')
+        if len(mres) != len(ops):
+            raise SystemExit('model answered %d calls for %d' % (len(mres), len(ops)))
+        if not scn['unit']:
+            # band members may go either way: dropped on both sides
+            orc = oracle_lists(scn, st)
+            for j, op in enumerate(ops):
+                if op[0] != 'r' and mres[j] != '_':
+                    b = orc[(op[3], op[2])][1][op[4]]
+                    keep = [t for t in mres[j].split(',') if int(t) not in b]
+                    mres[j] = ','.join(keep) if keep else '_'
+        mtxt = '|'.join(mres)
+        R.count('query-history:states')
+        R.count('query-history:calls', len(ops))
+        kinds = set()
+        view = {}
+        for op in ops:
+            if op[0] == 'r':
+                kinds.add('reset-between-queries')
+                continue
+            a = op[5]
+            cachedcall = op[0] == 'g' and (op[1] == 0 or scn['alias'][k]['other_cache'])
+            if not cachedcall and view.get(a):
+                kinds.add('un-cached-query-with-an-array-that-is-a-view-of-a-cache')
+            if cachedcall and a in view:
+                kinds.add('output-array-reused-for-a-cached-query')
+            if op[0] == 'n' and op[6]:
+                kinds.add('prealloc')
+            if op[1] == 1:
+                kinds.add('second-object')
+            view[a] = cachedcall
+        for kd in kinds:
+            R.count('query-history:states-with-' + kd)
+        for c, a in recs:
+            R.count('query-history:compared')
+            R.d['traces_validated_against_impl'] += 1
+            if a['got'] != mtxt:
+                r = results.get((scn['sid'], c))
+                fk = {'C01:%s:%s' % (c, kk) for kk in r.get('fail_keys', {}).get(str(k), [])}
+                if fk and fk <= known_keys():
+                    R.count('known-finding-disagreement')
+                    continue
+                g, m = a['got'].split('|'), mres
+                dif = [j for j in range(min(len(g), len(m))) if g[j] != m[j]][:4]
+                R.disagree({'scenario': scn, 'cls': c, 'cfg': r.get('cfg'), 'step': k,
+                            'history': scn['alias'][k]},
+                           'calls %r: %r' % (dif, [(ops[j], m[j]) for j in dif]),
+                           'calls %r: %r' % (dif, [(ops[j], g[j]) for j in dif]), 'query-history')
+
+
+def _cpu():
+    import resource
+    a, b = resource.getrusage(resource.RUSAGE_CHILDREN), resource.getrusage(resource.RUSAGE_SELF)
+    return a.ru_utime + a.ru_stime + b.ru_utime + b.ru_stime
 
 
 def run_model_parallel(lines, nthreads=12):
@@ -1300,7 +1874,13 @@ def known_keys():
 
 def evaluate(scns, R, work, tag, nproc=16):
     known = known_keys()
+    for scn in scns:
+        if 'alias' not in scn:
+            scn['alias'] = gen_alias(scn)
+    tw, tc = time.time(), _cpu()
     results, crashes = run_workers(scns, work, nproc, tag)
+    R.note('%s: implementation runs of %d scenarios took %.0f s wall, %.0f s cpu' % (
+        tag, len(scns), time.time() - tw, _cpu() - tc))
     by_sid = {s['sid']: s for s in scns}
     if crashes:
         raise SystemExit('harness worker died: %r' % (crashes[:3],))
@@ -1337,7 +1917,9 @@ def evaluate(scns, R, work, tag, nproc=16):
             small = sum(len(a['h']) for a in st) <= 24
             lines.append(model_line(scn, st, 'self' if small else 'q'))
             where.append((sid, k))
+    tw, tc = time.time(), _cpu()
     outs = run_model_parallel(lines)
+    R.note('%s: model q/self lines took %.0f s wall, %.0f s cpu' % (tag, time.time() - tw, _cpu() - tc))
     model = {}
     for (sid, k), o, ln in zip(where, outs, lines):
         if o == 'bad-op':
@@ -1423,9 +2005,14 @@ def evaluate(scns, R, work, tag, nproc=16):
                     'n': [len(a['h']) for a in scn['arrays']], 'cls': c,
                     'cfg': r.get('cfg'), 'model': model[(sid, 0)][3][:300] if (sid, 0) in model else None,
                     'impl_sha': r.get('steps')} if len(R.d['samples']) < 4 and c == 'ZOrderNNPS' else None)
-    check_real_trees(scns, results, R)
-    check_zorder_internals(scns, results, R)
-    check_strat_levels(scns, results, R)
+    for fn in (check_real_trees, check_zorder_internals, check_strat_levels):
+        tw, tc = time.time(), _cpu()
+        fn(scns, results, R)
+        R.note('%s: %s took %.0f s wall, %.0f s cpu' % (tag, fn.__name__, time.time() - tw, _cpu() - tc))
+    for fn in (check_bounds, check_alias):
+        tw, tc = time.time(), _cpu()
+        fn(scns, results, states, R)
+        R.note('%s: %s took %.0f s wall, %.0f s cpu' % (tag, fn.__name__, time.time() - tw, _cpu() - tc))
     return results
 
 
@@ -1531,7 +2118,15 @@ def main():
         'exact ties, followed by 0-3 update steps (move, change h, add, remove); every '
         '(src, dst, i) is queried with the cache off and on (miss, hit, OpenMP fill); '
         'distinct = distinct (arrays, history, class, knobs); non-trivial = at least one '
-        'query has two or more neighbours and the class ran at least one step')
+        'query has two or more neighbours and the class ran at least one step.  Added streams: '
+        'padded-face (extents solved so that the largest coordinate / the padded upper limit / inner '
+        'particles lie EXACTLY on cell faces of the grid whose origin is the padded minimum, 1-2 states), '
+        'decimal-lattice (round-number SPH lattices, one axis up to 100 (thorough 200) cells long); on '
+        'every state of every scenario an API-usage history is run (cached / un-cached / prealloc '
+        'calls and cache resets mixed on the live object and a second object of another class, output '
+        'arrays shared between the calls, every used cache entry read again at the end) and the bounds '
+        'xmin / xmax / ncells_per_dim of every real object are compared bit for bit with the Float run '
+        'of Model/NnpsBounds')
     R.work = a.work
     if a.replay:
         rp = json.load(open(a.replay))
@@ -1559,11 +2154,19 @@ def main():
     scns += [gen_scenario(rng, 's%d' % k, big=(a.tier != 'quick' and k % 10 == 0))
              for k in range(nscn)]
     scns += [gen_nondyadic(rng, 'n%d' % k) for k in range(10 if a.tier == 'quick' else 100)]
+    # own streams (do not shift the scenarios above): particles exactly on faces of the padded
+    # grid; round-number lattices up to ~100 (thorough: 200) cells long
+    rngf = random.Random(a.seed * 7919 + 11)
+    scns += [gen_face(rngf, 'f%d' % k) for k in range(int(os.environ.get(
+        'C01_NFACE', 24 if a.tier == 'quick' else 300)))]
+    scns += [gen_decimal(rngf, 'l%d' % k, big=(a.tier != 'quick')) for k in range(int(os.environ.get(
+        'C01_NDEC', 5 if a.tier == 'quick' else 40)))]
     # the real octrees are dumped and checked (TreeInv) for every scenario of a quick
     # run; a thorough run samples the larger ones (every 4th)
     for k, scn in enumerate(scns):
-        scn['dump_tree'] = (a.tier == 'quick' or k % 4 == 0 or
-                            sum(len(arr['h']) for arr in scn['arrays']) <= 80)
+        npart = sum(len(arr['h']) for arr in scn['arrays'])
+        scn['dump_tree'] = (a.tier == 'quick' or k % 4 == 0 or npart <= 80) and \
+            (npart <= 320 or (a.tier != 'quick' and k % 8 == 0))
     t0 = time.time()
     evaluate(scns, R, a.work, 'main')
     R.note('main pass: %d scenarios x 12 classes in %.0f s' % (len(scns), time.time() - t0))
@@ -1576,6 +2179,7 @@ def main():
                               force=rng2.choice(['sparse-multi', 'varh', 'varh-multi',
                                                  'lattice', 'tie', None]))
                  for k in range(250)]
+        extra += [gen_face(rng2, 'xf%d' % k) for k in range(60)]
         before = len(R.d['property_failures'])
         evaluate(extra, R, a.work, 'search')
         R.d['search'] = {'extra_scenarios': len(extra),
